@@ -271,8 +271,10 @@ func serveChild() {
 	})
 }
 
-// request is the drv_session line of a history, given what Go said about every load ("" when a
-// text that Go built cannot be serialised).
+// request is the drv_session line of a history.  Mode "text" (default): every load travels as the
+// raw text, the model decides itself whether it is accepted.  Mode "stmts": a load travels as the
+// statement trees the real generic parser made, with what Go said about parser and builder as
+// the buildOk flag ("" when a text that Go built cannot be serialised).
 func request(h History, g GoRes) string {
 	b := func(x bool) string {
 		if x {
@@ -285,6 +287,10 @@ func request(h History, g GoRes) string {
 	for i, op := range h.Ops {
 		switch op.Op {
 		case "load":
+			if h.Mode != "stmts" {
+				sb.WriteString(" T " + lib.HexS(op.Name) + " " + lib.HexS(op.Text))
+				continue
+			}
 			st := g.Steps[i].Load
 			if st == "rejected-parse" || st == "rejected-build" {
 				sb.WriteString(" L 0 F " + lib.HexS(op.Name) + " E")
@@ -373,7 +379,7 @@ func compare(o Outcome) (violations, disagreements []diff) {
 		}
 		if op := o.H.Ops[i]; op.Op == "load" && op.Fault != "" && s.Load == "accepted" {
 			disagreements = append(disagreements, diff{kind: "obligation", goV: s.Load,
-				what: fmt.Sprintf("op %d: the text %s with the planted fault %q was accepted", i, op.Name, op.Fault)})
+				what: fmt.Sprintf("op %d: the text %s with the planted fault %q was accepted by goyang", i, op.Name, op.Fault)})
 		}
 	}
 	if o.Outside != "" || o.Model == nil {
@@ -394,8 +400,23 @@ func compare(o Outcome) (violations, disagreements []diff) {
 		switch op.Op {
 		case "load":
 			g := s.Load
-			if g == "rejected-parse" {
-				g = "rejected-build"
+			if o.H.Mode == "stmts" {
+				// parser and builder are one flag there
+				if g == "rejected-parse" {
+					g = "rejected-build"
+				}
+			} else {
+				if g == "rejected-parse" {
+					g = "rejected-syntax"
+				}
+				// Go adds the statements one after the other and reports the first refusal, the
+				// text model looks for non-module nodes first: with both faults the class differs
+				if g == "rejected-notmodule" {
+					g = "rejected-add"
+				}
+				if m == "rejected-notmodule" {
+					m = "rejected-add"
+				}
 			}
 			if g != m {
 				disagreements = append(disagreements, diff{kind: "correspondence", goV: s.Load + " " + s.Err, model: m,
@@ -451,7 +472,9 @@ func linkFailed(d []string) bool {
 func dropIdentityErrors(d []string) []string {
 	var out []string
 	for _, r := range d {
-		if c := errClassOf(r); strings.HasPrefix(c, "identity") || c == "unknown-prefix" {
+		// ("cycle": with a link failure Process stops before ToEntry, so this can only be the
+		// circular-base error of an identity; a typedef cycle has the class type-cycle)
+		if c := errClassOf(r); strings.HasPrefix(c, "identity") || c == "unknown-prefix" || c == "cycle" {
 			continue
 		}
 		out = append(out, r)
@@ -580,14 +603,24 @@ func main() {
 	}
 	hs := loadCorpus()
 	nCorpus := len(hs)
+	for _, h := range hs[:nCorpus] {
+		// the corpus also in the statement-level mode
+		h.Mode = "stmts"
+		hs = append(hs, h)
+	}
 	for i := 0; i < n; i++ {
-		hs = append(hs, genHistory(f.Rand(i), maxLen))
+		h := genHistory(f.Rand(i), maxLen)
+		if i%4 == 3 {
+			h.Mode = "stmts"
+		}
+		hs = append(hs, h)
 	}
 	distinct := lib.NewDistinct()
 	var nOps, nProc, nProcClean, nProcErr, nRead, nReadCompared, nWalk, outside, crashes, reproc, afterReject, incremental int64
 	faults := map[string]int64{}
 	loads := map[string]int64{}
 	origins := map[string]int64{}
+	modes := map[string]int64{}
 	examined := 0
 	// in slices, so that a mass disagreement stops the run early
 	const slice = 2000
@@ -598,6 +631,11 @@ func main() {
 		}
 		for _, o := range runAll(hs[lo:hi], f) {
 			res.Evaluations++
+			if o.H.Mode == "stmts" {
+				modes["stmts"]++
+			} else {
+				modes["text"]++
+			}
 			origins[strings.SplitN(o.H.Origin, "/", 2)[0]]++
 			if o.Crashed {
 				crashes++
@@ -694,7 +732,9 @@ func main() {
 	}
 	res.DistinctNontrivial = distinct.Len()
 	res.Rule = fmt.Sprintf("histories of load(good text) | load(bad text) | process | read | walk of length <= %d on one Modules value: %d corpus histories (the D30-D32, D44-D46 witnesses and the history of the Lean non-vacuity example), then seeded histories over the texts of a generated module set (harness/gen: 1-%d modules with submodules, groupings, typedefs, identities, augments, deviations) in as-generated / submodules-first / reversed / shuffled arrival order, 40%% with another revision of one module arriving late, with process, read (Find), walk (ToEntry + GetErrors of everything) and bad texts interleaved; bad texts = the good text of a pending or loaded module with a nested scope holding an unresolvable typedef (60%%) and ONE late fault (unknown substatement deep inside the last statement, missing type at the end, syntax error at the end, a non-module node after the module, a second module in the text that is a duplicate, the text twice) or an exact duplicate (same or other file name); distinct_nontrivial = distinct histories (by operations and texts) with a process that follows an accepted load and an earlier process or rejected load, i.e. where incrementality or failed-load transparency is actually exercised", maxLen, nCorpus, 3)
-	res.Distribution["histories_corpus"] = int64(nCorpus)
+	res.Distribution["histories_corpus"] = int64(2 * nCorpus)
+	res.Distribution["histories_with_loads_as_raw_text"] = modes["text"]
+	res.Distribution["histories_with_loads_as_statement_trees"] = modes["stmts"]
 	res.Distribution["operations"] = nOps
 	res.Distribution["process_ops"] = nProc
 	res.Distribution["process_clean"] = nProcClean
@@ -712,6 +752,7 @@ func main() {
 	res.Distribution["crashes"] = crashes
 	res.Notes = append(res.Notes,
 		"every process op is checked twice: Go (one value) vs Go (batch of the accepted texts on a fresh value) on an extended dump (all node fields, submodule trees, identity value lists with source positions), and Go vs the Lean session model on the projection "+strings.Join(keys, ",")+" + errors",
-		"whether the generic parser / AST builder accepts a text is taken from the Go answer (buildOk flag of the model's load); duplicates and non-module nodes are decided by the model itself and compared")
+		"3 of 4 generated histories (and every corpus history) send the raw texts: generic parser, AST builder and registry of the model decide whether a text is accepted, and the answer to every load is compared with goyang's (syntax / build / add); 1 of 4 (and every corpus history a second time) send the statement trees of the real generic parser with goyang's verdict on parser and builder as a flag, duplicates and non-module nodes are then still decided by the model and compared",
+		"when Process reports a missing module or submodule, errors of the classes identity-*, unknown-prefix and cycle (identity) are not compared between goyang and the model (the identity layer of the model declines after a link failure); the comparison of the one value with the batch run on a fresh value is on all errors")
 	res.Write(f.Out)
 }
